@@ -44,6 +44,9 @@ T = {
  "C11": ("property-based testing (byte-stream PBT, boundary-value generators, exact rational / IEEE-truncation oracle) + libFuzzer in thorough",
          "Generated-input search over the comparison functions (mpz/mpq/mpf, incl. _ui/_si/_d/_z forms, doubles taken from bit patterns incl. subnormals and infinities) and the conversions to/from C types (set/get ui/si/ux/sx/d, d_2exp, fits predicates) with operands concentrated around every C type boundary and values with more than 53 significant bits; the sign of the exact difference and the exact truncation toward zero are computed with the reference bignum. Where the manual calls the result system dependent (below the normal double range, get_si out of range) nothing stricter is asserted. Exploration with an exact oracle.",
          "DESIGN.md section 5 C11"),
+ "C16": ("property-based testing (byte-stream PBT, definition-based refint oracle, constructed primes/pseudoprimes) + libFuzzer in thorough",
+         "Generated-input search over fac/2fac/mfac/primorial, bin_ui/bin_uiui (each algorithm region, negative and multi-limb n), fib/fib2/lucnum/lucnum2, remove, and the primality family on all small n, type-boundary neighbourhoods, Carmichael numbers, strong pseudoprimes, close semiprimes and special-form large primes/composites; values are decided by definition in the reference bignum and primality by deterministic Miller-Rabin (n < 2^81) or construction. Checks are exactly the stated ones (never 0 for a prime, never 2 for a composite, 0 at >=25 reps, nextprime result > n with no prime between). Exploration with an exact oracle.",
+         "DESIGN.md section 5 C16"),
 }
 built = [i for i in ids if i in T and (os.path.exists(os.path.join(ROOT, "props", i + ".cc")) or os.path.exists(os.path.join(ROOT, "props", i + "_run.py")))]
 checks = []
